@@ -88,7 +88,14 @@ def _word(rnd: random.Random, ni: int, no: int, hasdep: bool, layout: T.Sequence
 CT_LAYOUT = ['PRIVATE_DIR', 'SOURCE_ROOT', 'BUILD_ROOT', 'CURRENT_SOURCE_DIR']
 
 
-def gen_ct(rnd: random.Random, k: str, sd: str, valid: bool) -> T.Dict[str, T.Any]:
+CT_HOWS = ['in-index', 'out-index', 'name-many', 'in-embedded', 'out-embedded', 'no-depfile', 'out-name-many', 'no-input',
+           'dep-no-input']
+GEN_HOWS = ['no-name', 'plain-output', 'out-index']
+CF_HOWS = ['in-index', 'out-index', 'name-many', 'in-embedded', 'no-input']
+INVALID_COMBOS = [('ct', h) for h in CT_HOWS] + [('gen', h) for h in GEN_HOWS] + [('cf', h) for h in CF_HOWS]
+
+
+def gen_ct(rnd: random.Random, k: str, sd: str, valid: bool, how: T.Optional[str] = None) -> T.Dict[str, T.Any]:
     ni = rnd.choice([0, 1, 1, 1, 2, 2, 3, 11])
     no = rnd.choice([1, 1, 1, 2, 2, 3])
     ins = _in_names(rnd, k, ni)
@@ -110,8 +117,7 @@ def gen_ct(rnd: random.Random, k: str, sd: str, valid: bool) -> T.Dict[str, T.An
     cmd = [_word(rnd, ni, no, hasdep, CT_LAYOUT) for _ in range(rnd.randint(1, 7))]
     t = {'k': 'ct', 'name': f'ct{k}', 'sd': sd, 'ins': ins, 'outs': outs, 'dep': dep, 'hasdep': hasdep, 'cmd': cmd}
     if not valid:
-        how = rnd.choice(['in-index', 'out-index', 'name-many', 'in-embedded', 'out-embedded', 'no-depfile', 'out-name-many',
-                          'no-input', 'dep-no-input'])
+        how = how or rnd.choice(CT_HOWS)
         if how == 'in-index':
             t['cmd'].insert(rnd.randrange(len(cmd) + 1), rnd.choice(['', '-i']) + f'@INPUT{ni + rnd.choice([0, 1, 7])}@')
         elif how == 'out-index':
@@ -150,7 +156,7 @@ def gen_ct(rnd: random.Random, k: str, sd: str, valid: bool) -> T.Dict[str, T.An
     return t
 
 
-def gen_gen(rnd: random.Random, k: str, sd: str, valid: bool) -> T.Dict[str, T.Any]:
+def gen_gen(rnd: random.Random, k: str, sd: str, valid: bool, how: T.Optional[str] = None) -> T.Dict[str, T.Any]:
     no = rnd.choice([1, 1, 2])
     outs = [f'g{k}_{j}_' + rnd.choice(['@BASENAME@.c', '@PLAINNAME@.h', '@BASENAME@', '@BASENAME@_@PLAINNAME@.x']) for j in range(no)]
     hasdep = rnd.random() < 0.5
@@ -173,7 +179,7 @@ def gen_gen(rnd: random.Random, k: str, sd: str, valid: bool) -> T.Dict[str, T.A
     g = {'k': 'gen', 'name': f'g{k}', 'sd': sd, 'outs': outs, 'dep': dep, 'hasdep': hasdep, 'args': args, 'extra': extra,
          'inputs': inputs}
     if not valid:
-        how = rnd.choice(['no-name', 'plain-output', 'out-index'])
+        how = how or rnd.choice(GEN_HOWS)
         if how == 'no-name':
             g['outs'][rnd.randrange(no)] = f'g{k}_fixed.c'
         elif how == 'plain-output':
@@ -184,7 +190,7 @@ def gen_gen(rnd: random.Random, k: str, sd: str, valid: bool) -> T.Dict[str, T.A
     return g
 
 
-def gen_cf(rnd: random.Random, k: str, sd: str, valid: bool) -> T.Dict[str, T.Any]:
+def gen_cf(rnd: random.Random, k: str, sd: str, valid: bool, how: T.Optional[str] = None) -> T.Dict[str, T.Any]:
     ni = rnd.choice([0, 1, 1, 2, 3])
     ins = _in_names(rnd, k, ni)
     hasdep = rnd.random() < 0.5
@@ -201,7 +207,7 @@ def gen_cf(rnd: random.Random, k: str, sd: str, valid: bool) -> T.Dict[str, T.An
     c = {'k': 'cf', 'name': f'cf{k}', 'sd': sd, 'ins': ins, 'outs': [out], 'dep': dep, 'hasdep': hasdep, 'cmd': cmd,
          'deplines': [], 'depexist': []}
     if not valid:
-        how = rnd.choice(['in-index', 'out-index', 'name-many', 'in-embedded', 'no-input'])
+        how = how or rnd.choice(CF_HOWS)
         c['dep'], c['hasdep'] = '', False
         if how == 'in-index':
             c['cmd'] = ['@OUTPUT@', f'@INPUT{ni + rnd.choice([0, 2])}@']
